@@ -1036,6 +1036,10 @@ def hygiene_rules(model: Model, fc: FnCls, prop: str, min_copies: int = 1, min_o
     ac4_conversion_reference(fc, RC)
     ac10_index_space(fc, RX)
     out = [R9, RO, RC, RX]
+    R11 = RuleResult(prop, "AC11", "every exit of the public functional returns the Function's output; forward's solution comes only from the dispatched implementation; operands unchanged", min_instances=2)
+    ac11_wrapper_returns(model, fc, R11)
+    ac11_forward_provenance(model, fc, R11)
+    out.append(R11)
     if "TensorNonTensorSeparator" in ast.unparse(fc.forward.node):
         SEP = RuleResult(prop, "AC-SEP", "TensorNonTensorSeparator.reconstruct_params scatters both groups back to their recorded positions (inverse of the split)", min_instances=4)
         separator_inverse(model, SEP)
@@ -1204,4 +1208,108 @@ def separator_inverse(model: Model, R: RuleResult) -> int:
         R.ok(rec.fq, "the result has nparams slots (or is the tensor list itself when every argument is a tensor)")
     else:
         R.bad(rec, rec.node, "the reconstructed list must have exactly nparams slots")
+    return n
+
+
+# ---------------------------------------------------------------------------------------------------- AC11 / AC12
+REBIND_OK = {"method", "mode", "neig"}
+REBIND_OK_PER = {"solve_ivp": {"y0"}}      # a tuple y0 is flattened by the packer (C07-P)
+
+
+def ac11_wrapper_returns(model: Model, fc: FnCls, R: RuleResult) -> int:
+    """Every exit of a public functional returns the Function's output (possibly re-packed by the packer that flattened the
+    arguments) or the result of another function of the package - never a freshly built tensor: a shortcut such as
+    `if xl == xu: return torch.zeros_like(out)` is disconnected from autograd (all gradients, incl. those w.r.t. the limits, vanish).
+    AC12: the operands are handed on unchanged: no parameter other than the normalised option names is re-bound."""
+    n = 0
+    seen = set()
+    for f, call in apply_sites(model, fc):
+        if f.fq in seen or f.parent is not None or f.cls is not None:
+            continue
+        seen.add(f.fq)
+        defs = function_defs(f.node)
+        for r in own_nodes(f.node):
+            if not isinstance(r, ast.Return) or r.value is None:
+                continue
+            n += 1
+            v = r.value
+            ok = False
+            why = ast.unparse(v)[:60]
+            for _ in range(3):
+                if isinstance(v, ast.Name) and len(defs.get(v.id, [])) == 1:
+                    v = defs[v.id][0]
+            if isinstance(v, ast.Call):
+                fn = ast.unparse(v.func)
+                if fn.endswith(".apply"):
+                    rr = model.resolve_expr(f.module, v.func.value) if isinstance(v.func, ast.Attribute) else None
+                    ok = bool(rr and rr[0] == "class" and rr[1] is fc.ci)
+                elif isinstance(v.func, ast.Attribute) and v.func.attr == "pack" and len(v.args) == 1:
+                    a = v.args[0]
+                    d = defs.get(a.id, []) if isinstance(a, ast.Name) else [a]
+                    ok = len(d) == 1 and isinstance(d[0], ast.Call) and ast.unparse(d[0].func).endswith(".apply")
+                else:
+                    tgt = resolve_call(model, f, v)
+                    ok = tgt is not None
+            if ok:
+                R.ok(f.fq, "%s returns `%s`" % (f.name, why))
+            else:
+                R.bad(f, r, "%s returns `%s`, which is neither the output of %s.apply (possibly re-packed) nor the result of another xitorch function: the value is "
+                      "disconnected from the differentiable implementation" % (f.name, why, fc.name))
+        params = set(f.all_params())
+        allowed = REBIND_OK | REBIND_OK_PER.get(f.name, set())
+        reb = sorted({x.id for x in ast.walk(f.node) if isinstance(x, ast.Name) and isinstance(x.ctx, ast.Store) and x.id in params and x.id not in allowed})
+        n += 1
+        if not reb:
+            R.ok(f.fq, "%s hands its operands on unchanged (only %s may be normalised)" % (f.name, sorted(allowed & params)))
+        else:
+            st = [s for s in ast.walk(f.node) if isinstance(s, (ast.Assign, ast.AugAssign)) and any(isinstance(x, ast.Name) and isinstance(x.ctx, ast.Store) and x.id in reb for x in ast.walk(s))]
+            R.bad(f, st[0] if st else f.node, "%s re-binds its operand(s) %s before dispatch: the implementation no longer sees what the caller passed "
+                  "(e.g. batch dimensions carried only by a dropped operand are lost)" % (f.name, reb))
+    return n
+
+
+FORWARD_SHORTCUTS = {"solve_torchfcn": "torch.zeros"}     # B == 0: the solution is exactly zero (guarded by torch.all(B == 0))
+
+
+def ac11_forward_provenance(model: Model, fc: FnCls, R: RuleResult) -> int:
+    """In forward, every reaching definition of the returned solution is the call of the implementation obtained from get_method
+    (or the documented zero shortcut of solve): no path bypasses the dispatched solver."""
+    fw = fc.forward
+    defs = function_defs(fw.node)
+    impl_names = {nm for nm, ds in defs.items() if any(isinstance(d, ast.Call) and ast.unparse(d.func).split(".")[-1] == "get_method" for d in ds)}
+    if not impl_names:
+        return 0
+    rets = own_returns(fw)
+    n = 0
+    outs = set()
+    for r in rets:
+        for e in (r.value.elts if isinstance(r.value, ast.Tuple) else [r.value]):
+            if isinstance(e, ast.Name):
+                outs.add(e.id)
+    # names produced by the implementation call (tuple targets included)
+    produced = set()
+    others = {}
+    for s in ast.walk(fw.node):
+        if isinstance(s, ast.Assign):
+            tnames = [x.id for t in s.targets for x in (t.elts if isinstance(t, ast.Tuple) else [t]) if isinstance(x, ast.Name)]
+            if isinstance(s.value, ast.Call) and isinstance(s.value.func, ast.Name) and s.value.func.id in impl_names:
+                produced |= set(tnames)
+            else:
+                for tn in tnames:
+                    others.setdefault(tn, []).append(s)
+    for o in sorted(outs):
+        if o not in produced:
+            continue
+        n += 1
+        extra = []
+        for s in others.get(o, []):
+            src = ast.unparse(s.value)
+            if fc.name in FORWARD_SHORTCUTS and src.startswith(FORWARD_SHORTCUTS[fc.name]):
+                continue
+            extra.append(s)
+        if not extra:
+            R.ok(fw.fq, "%s.forward: `%s` is produced only by the dispatched implementation%s" % (fc.name, o, " (or the documented zero shortcut)" if fc.name in FORWARD_SHORTCUTS else ""))
+        else:
+            R.bad(fw, extra[0], "%s.forward: the returned `%s` can also come from `%s`, bypassing the implementation selected by `method` (its convergence test and warning included)"
+                  % (fc.name, o, norm_stmt(extra[0], 70)))
     return n
